@@ -37,6 +37,9 @@ def models(tier):
         alpha += [("m", 0, n) for n in ("cea_ok", "cea_3xxx", "cea_nohost", "dpr", "dwa")] + [("eof", 0), ("rst", 0), ("resolve", 0, True), ("resolve", 0, False)]
         alpha += [("m", 1, n) for n in ("cer_p0", "cer_p1", "cea_ok", "dpr")] + [("eof", 1), ("resolve", 1, True)]
         out.append(monitors.ScenarioModel(f"outbound-persistent-start-{plan}", ob, alpha, MONS, max_socks=3, start_plan=[plan]))
+    # a second deterministic scheduling policy (the I/O thread runs only when nothing else can)
+    if True:
+        out = monitors.with_io_last(out)
     return out
 
 
